@@ -290,6 +290,10 @@ class BaseInterpolatablePreProcessor:
             _GlyphSet.from_layer(ufo, layerName, copy=not inplace)
             for ufo, layerName in zip_strict(ufos, layerNames)
         ]
+        # the instantiator was built from the source layers: make it work on our
+        # (copied) glyph sets from the start, or filters that modify the glyphs they
+        # fetch through it (e.g. PropagateAnchors) would write to the source fonts
+        self._update_instantiator()
         if skipExportGlyphs:
             from ufo2ft.filters.skipExportGlyphs import SkipExportGlyphsIFilter
 
